@@ -79,7 +79,7 @@ def identifier_resolvers(repo: Repo, rep: Report, rule: str) -> None:
     rep.floor(rule, "identifier resolvers", n, 2)
 
 
-def reads_repointed_only_for_own_cell(repo: Repo, rep: Report, rule: str) -> None:
+def reads_repointed_only_for_own_cell(repo: Repo, rep: Report, rule: str, absent_is: str | None = None) -> None:
     """In the arithmetic-feedback rewrite every re-pointing of a recorded read is guarded by `its memory id == this cell's id`."""
     opt = repo.func("MemoryBuilder._optimize_to_arithmetic_feedback")
     pm = parents_map(opt.node)
@@ -98,7 +98,13 @@ def reads_repointed_only_for_own_cell(repo: Repo, rep: Report, rule: str) -> Non
             ok = any(pol and mem_var is not None and (g.startswith(f"{mem_var} == op.memory_id") or g.startswith(f"op.memory_id == {mem_var}")) for g, pol in gs)
             rep.check(ok, rule, f"{opt.short}: `{ckey(opt, x)}` only for reads of the cell being optimised",
                       "guarded by the memory id" if ok else "reads of *other* memory cells are re-pointed at this cell's arithmetic node: two independent cells interfere", opt.loc(x))
-    rep.floor(rule, "read re-pointing sites", n, 2)
+    if n == 0 and absent_is is not None:
+        # no loop over the recorded reads at all: nothing of another cell is touched (fine for non-interference), but the reads of this cell keep
+        # pointing at the removed gates (a violation for the feedback rewrite itself)
+        (rep.bad if absent_is == "violation" else rep.ok)(rule, f"{opt.short}: reads recorded before the write are re-pointed, and only those of this cell",
+                 "no loop over the recorded reads: a read lowered before the write stays attached to the removed gates" if absent_is == "violation" else "no re-pointing loop, nothing of another cell is touched", opt.loc())
+        return
+    rep.floor(rule, "read re-pointing sites", n, 1)
 
 
 def bundle_literal_sibling_branches(repo: Repo, rep: Report, rule: str) -> None:
